@@ -56,6 +56,20 @@ func init() {
 	probes["O53"] = probeO53
 	probes["O54"] = probeO54
 	probes["O55"] = probeO55
+	probes["O74"] = func() (bool, string) {
+		return guard(func() (bool, string) {
+			a, b := underOrders(func() string {
+				c, _ := ucfg.NewFrom(map[string]interface{}{"x": map[string]interface{}{"a": 1}, "y": 2, "z": 3})
+				ch, _ := c.Child("x", -1)
+				err := ch.Merge(c)
+				var m map[string]interface{}
+				ch.Unpack(&m)
+				return fmt.Sprint(err, m)
+			})
+			want := "<nil> map[a:1 x:map[a:1] y:2 z:3]"
+			return a != b || a != want, "x.Merge(its parent) under sorted / reversed enumeration: " + a + " / " + b
+		})
+	}
 	probes["O73"] = func() (bool, string) {
 		// (the defect is unbounded recursion: a fatal stack overflow, not a panic - bounded by depth here)
 		depth := 0
